@@ -212,7 +212,11 @@ arming numbers (`k = 0`: unchanged). -/
 def permuteTies (s : HState) (d : Nat) (k : Nat) : HState :=
   let grp := s.active.filter (·.deadline == d)
   let seqs := (grp.map (·.tseq)).toArray.qsort (· < ·) |>.toList
-  match (orders seqs)[k]? with
+  -- all orders for groups of up to four calls; arming order or its reverse for larger ones
+  let perm? : Option (List Nat) :=
+    if seqs.length ≤ 4 then (orders seqs)[k]?
+    else if k == 1 then some seqs.reverse else if k == 0 then some seqs else none
+  match perm? with
   | none => s
   | some perm =>
     let pairs := seqs.zip perm
@@ -248,7 +252,7 @@ def factorial : Nat → Nat
 
 /-- Choice vectors for groups of the given sizes (mixed radix), at most `limit` of them. -/
 def choiceVectors (sizes : List Nat) (limit : Nat) : List (List Nat) :=
-  let radices := sizes.map fun n => factorial (min n 4)
+  let radices := sizes.map fun n => if n ≤ 4 then factorial n else 2
   let total := min limit (radices.foldl (· * ·) 1)
   (List.range total).map fun i =>
     (radices.foldl (fun (p : Nat × List Nat) r => (p.1 / r, p.2 ++ [p.1 % r])) (i, [])).2
